@@ -102,6 +102,15 @@ def _quick(u, cases=None):
     return u
 
 
+def _deep(u, cases=None):
+    """three unconstrained features: more than an hour and a half per unit on this machine - run by hand (`./check C16 deep`),
+    not part of the registered tiers; the nested three-feature configuration below is in the quick tier"""
+    u.tiers = ('deep',)
+    if cases is not None:
+        u.cases = cases
+    return u
+
+
 def _thorough(u, cases=None):
     u.tiers = ('thorough',)
     if cases is not None:
@@ -112,7 +121,7 @@ def _thorough(u, cases=None):
 UNITS = [history(0, 1), _quick(history(1, 1), [{}, {'strand': ('const', '+')}]),
          _quick(lookup('nb'), [{}]), _quick(lookup('optim'), [{}]), _quick(lookup('other'), [{}]), between(1),
          # thorough tier: the same scenarios with more features / all strand cases
-         _thorough(history(0, 2)), _thorough(history(2, 1), [{}]), _thorough(history(1, 2), [{}]), _thorough(between(2))]
+         _thorough(history(0, 2)), _deep(history(2, 1), [{}]), _deep(history(1, 2), [{}]), _thorough(between(2))]
 for _o in ('nb', 'optim', 'other'):
     _t = lookup(_o)
     _t.name += ' (all strands)'
